@@ -384,6 +384,58 @@ def run(prog, ctx):
         else:
             res.undecided += 1
     res.rule("C07.S", n_s, 3, "sizing formulas")
+    # C07.X a counter leaves the map only because *its own* value dropped to zero or below: every place that deactivates slots
+    # (writes the occupancy array with zero / fills it / clears the keys) outside the constructors and the resize rebuild is reached
+    # under a comparison on an element of the counters array, or is the delete helper called under such a comparison
+    MX = "frequencies::reverse_purge_item_hash_map::ReversePurgeItemHashMap"
+    n_x = 0
+    for f in prog.fns.values():
+        if f.promoted or not (f.owner or "").startswith(MX) or "{closure" in f.id or f.argc < 1 or not f.local_ty(1).startswith("&mut"):
+            continue
+        if f.item_name in ("new", "resize"):
+            continue
+        muts = C.buffer_mutations(f, "states")
+        if not muts:
+            continue
+        sx = Sym(prog, f)
+        callers_guarded = None
+        for b in sorted(muts):
+            t = f.blocks[b].term
+            nm = (t[1].get("callee") or "").rsplit("::", 1)[-1] if t[0] == "call" else ""
+            # does the block store a non-zero state (activation)?  only deactivations matter
+            vals = [st[2] for st in f.blocks[b].stmts if st[0] == "=" and not isinstance(st[1], int)]
+            if vals and not any(v[0] == "use" and v[1][0] == "k" and v[1][1].get("v") == 0 for v in vals):
+                continue        # stores something other than the constant 0: an activation / a drift update, not a deactivation
+            facts = sx.cmp_facts_at(b)
+            on_values = any(any(y[0] == "field" and y[-1] == "values" for z in t_[1:] if isinstance(z, tuple) for y in sym.walk(z)) for t_ in facts)
+            n_x += 1
+            if on_values:
+                res.tri(True, "C07.X", "C07.X|%s" % f.id, "", f.id)
+                continue
+            # a helper that deactivates unconditionally is fine when every call of it is guarded by the counter of the slot
+            sites = [(g, bb) for g in prog.fns.values() if not g.promoted and (g.owner or "").startswith(MX) for bb, st in g.calls() if st.get("callee") == f.id]
+            if sites and all(any(any(y[0] == "field" and y[-1] == "values" for z in t_[1:] if isinstance(z, tuple) for y in sym.walk(z)) for t_ in Sym(prog, g).cmp_facts_at(bb)) for g, bb in sites):
+                res.tri(True, "C07.X", "C07.X|%s" % f.id, "", f.id)
+            elif nm in ("fill", "clear", "for_each") or not sites:
+                res.tri(False, "C07.X", "C07.X|%s" % f.id, "%s deactivates slots of the map (%s on the occupancy array) without a comparison on the slots' own counters: an item whose "
+                        "counter is still positive is dropped while only the purge amount is added to the offset, so its upper bound falls below its true count" % (f.id, nm or "store"), f.id)
+            else:
+                res.tri(None, "C07.X", "C07.X|%s" % f.id, "deactivation in %s not classified" % f.id, f.id)
+    res.rule("C07.X", n_x, 1, "slot deactivations guarded by the slot's own counter")
+    # an index found by a probe is used before the map can be resized
+    M_ = "frequencies::reverse_purge_item_hash_map::ReversePurgeItemHashMap"
+    owners_ = sorted(set(f.owner for f in prog.fns.values() if f.owner and f.owner.startswith(M_)))
+    n_i = 0
+    for ow in owners_:
+        for buf in ("keys", "values", "states"):
+            n_i += 1
+            bad_ = list(C.stale_index_stores(prog, ow, buf))
+            for f_, sb_, gcal_ in bad_:
+                res.violate("C07.I", "C07.I|%s|%s" % (f_.id, buf), "%s stores into `%s` at an index obtained before the call of %s, which can reallocate the map" % (f_.id, buf, gcal_), f_.id)
+            res.obligations += 1
+            if not bad_:
+                res.discharged += 1
+    res.rule("C07.I", n_i, 3, "probe index used before the map can be reallocated")
     res.explanation = ("structural and formula rules over the %d functions reachable from FrequentItemsSketch::{new,update_with_count,merge}: merge "
                        "conservation with its guard, bound accessor formulas, purge flow, resize-or-purge after every insertion, sizing formulas "
                        "evaluated for lg 0..=31" % len(reach))
